@@ -36,6 +36,9 @@ PARTLY_PROVED = {'bucklin': 'n_seats > 1 (only the one-seat evaluator is modelle
 MULTIPLIERS = [2, 3, 7, 10 ** 6, 10 ** 25 + 7]
 SMALL_MULTIPLIERS = [2, 3, 7]
 BIG_MULTIPLIERS = [10 ** 25 + 7, 2 ** 70 + 1, 3 * 10 ** 30 + 11, 10 ** 25 + 7]     # directed boundary cases
+# Bucklin/Oklahoma boundary cases: EVEN factors too (a quota computed as `sum // 2` is only wrong for odd totals, which an odd
+# factor keeps odd in both runs and an even factor repairs in the scaled run)
+HALF_MULTIPLIERS = [10 ** 25 + 7, 2 * (10 ** 25 + 7), 10 ** 6, 2 ** 70 + 1, 2, 3 * 10 ** 30 + 11, 2 ** 70, 7]
 NAMES = Names(prefix='cand')
 REL_THRESHOLDS = {'rel_threshold_5pc': ('1/20', True), 'rel_threshold_third': ('1/3', False)}   # as built in families.py
 DIST_FAMILIES = ('ha_', 'lr_', 'qd_')
@@ -133,7 +136,7 @@ def _init_unproved():
 
 _init_unproved()
 REQUIRED_COUNTERS = (['score_fraction_counts', 'score_large_factor', 'scale', 'near_tie', 'equal_rational', 'beyond_2^53', 'modelled',
-                      'lr_equal_remainders', 'exact_half_or_quota']
+                      'lr_equal_remainders', 'exact_half_or_quota', 'odd_total_half', 'even_factor']
                      + ['m:' + f for f in PROVED_FAMILIES])      # every proved family is also run through its Lean model
 RULE = ('every scale-free evaluator family of the quantifier (plurality, divisor methods, largest remainder with exact quotas, '
         'Condorcet methods, STV-Gregory with Hare quota, Bucklin/Oklahoma, positional, approval, score, majority judgment, STAR, '
@@ -158,7 +161,7 @@ NOT_VERIFIED = ['returned numeric TYPES (int/Fraction/Decimal, never float) are 
 
 def generate(rng, tier):
     F = list(fams().values())
-    per = 14 if tier == 'quick' else 700
+    per = 14 if tier == 'quick' else 350
     for f in F:
         mults = SMALL_MULTIPLIERS if f.small_weights else MULTIPLIERS
         for t in range(per):
@@ -194,16 +197,26 @@ def generate(rng, tier):
     # STV-Gregory-Hare: a candidate holding exactly the Hare quota on first preferences
     for f in F:
         if f.name in ('bucklin', 'oklahoma', 'stv_gregory_hare'):
-            for t in range(8 if tier == 'quick' else 80):
+            for t in range(16 if tier == 'quick' else 160):
                 h = rng.randint(2, 9)
                 x = rng.randint(1, h - 1)
-                k = BIG_MULTIPLIERS[t % len(BIG_MULTIPLIERS)]
+                tags = ['scale', 'exact_half_or_quota']
                 if f.name == 'stv_gregory_hare':
+                    k = BIG_MULTIPLIERS[t % len(BIG_MULTIPLIERS)]
                     prof, n = [[[0], str(h)], [[1, 2], str(x)], [[2, 1], str(h - x)]], 2
                 else:
-                    prof, n = [[[0, 1], str(h)], [[2, 1], str(h - x)], [[1, 2], str(x)]], 1
-                yield {'op': 'scale', 'family': f.name, 'prof': prof, 'n': n, 'k': str(k),
-                       '_tags': ['scale', 'exact_half_or_quota', 'beyond_2^53']}
+                    k = HALF_MULTIPLIERS[(t // 2) % len(HALF_MULTIPLIERS)]
+                    if t % 2 == 0:
+                        prof, n = [[[0, 1], str(h)], [[2, 1], str(h - x)], [[1, 2], str(x)]], 1
+                    else:
+                        # ODD total 2h+1; the shared first rank gives candidate 0 exactly h + 1/2 = half of the votes
+                        prof, n = [[[[0, 1], 2], '1'], [[0, 2], str(h)], [[2, 1], str(h)]], 1
+                        tags.append('odd_total_half')
+                    if k % 2 == 0:
+                        tags.append('even_factor')
+                if k > 2 ** 53:
+                    tags.append('beyond_2^53')
+                yield {'op': 'scale', 'family': f.name, 'prof': prof, 'n': n, 'k': str(k), '_tags': tags}
     # the one-seat evaluators whose Lean model is the single-winner rule: directed cases with n = 1
     for f in F:
         if f.name in ('bucklin', 'benham', 'tideman_alternative'):
